@@ -453,6 +453,8 @@ Proof.
     destruct (prelim_procs_types_spec ps a q) as [Hs Hr]; destruct (prelim_procs_types D ps a q) as [[ps1 rem]| | |] end;
     cbn [tbind]; try (split; [exact I | discriminate]); try contradiction.
   destruct (negb (existsb snd rem)); cbn [guard tbind]; [|split; [exact I | discriminate]].
+  repeat match goal with |- context [guard ?b ?w] =>
+    destruct b; cbn [guard tbind]; [|split; [exact I | discriminate]] end.
   split; [exact I|]. intros ps' a' H. inversion H; subst. split; auto. eapply Hr; eauto.
 Qed.
 
